@@ -22,7 +22,7 @@ func init() {
 		Rule: "runs = PRNG-generated mixed session histories (AKE in both roles, traffic with rotations, heartbeats, SMP with equal/different secrets, extra key, End and restart, refresh, fragment sizes, both versions); in half of the runs party B is the reference implementation acting as a live peer; " +
 			"every emitted message is checked against the shadow reference; non-trivial = at least one AKE, 6 data messages and one non-padding TLV checked; distinct = distinct (config, step-kind sequence) signatures",
 		Assume: []string{"the oracle is refotr (/verif/sim/refotr), an implementation written from the protocol specification that imports nothing from otr3; DESIGN.md appendix B lists the specification facts it is built from",
-			"otr3-specific but specification-compatible choices are accepted: padding TLV, heartbeats, 4-byte value in the SMP-abort TLV, abort instead of SMP4 after a failed comparison, an empty last fragment"},
+			"otr3-specific but specification-compatible choices are accepted: padding TLV, heartbeats, 4-byte value in the SMP-abort TLV, abort instead of SMP4 after a failed comparison"},
 	})
 }
 
